@@ -1,7 +1,8 @@
 // Command gen/c07 prints coq/Gen/C07Facts.v from the /repo working tree (terms, never verdicts):
-// the ordered decorator list of NewAnteHandlerEVM and syntactic facts (taken from the AST, so
-// renaming variables or reformatting does not change them) about the nonce check / increment,
-// the signer construction and the msg-server nonce bracket.
+// the ordered decorator list of NewAnteHandlerEVM and semantic facts (see norm.go: independent
+// of names, temporaries, spelling of comparisons, if/switch form, one-level helpers and message
+// texts) about the nonce check / increment, the signer construction and the msg-server nonce
+// bracket.
 package main
 
 import (
@@ -24,72 +25,6 @@ var decNames = map[string]string{
 	"NewAnteDecEthIncrementSenderSequence": "DIncrementSeq",
 	"AnteDecoratorGasWanted":               "DGasWanted",
 	"NewEthEmitEventDecorator":             "DEmitEvent",
-}
-
-func calleeName(e ast.Expr) string {
-	switch x := e.(type) {
-	case *ast.CallExpr:
-		return calleeName(x.Fun)
-	case *ast.CompositeLit:
-		return calleeName(x.Type)
-	case *ast.SelectorExpr:
-		return x.Sel.Name
-	case *ast.Ident:
-		return x.Name
-	case *ast.UnaryExpr:
-		return calleeName(x.X)
-	case *ast.StarExpr:
-		return calleeName(x.X)
-	case *ast.ParenExpr:
-		return calleeName(x.X)
-	}
-	return "?"
-}
-
-// isMethodCall: e is a call `<recv>.<name>(…)`.
-func isMethodCall(e ast.Expr, name string) bool {
-	c, ok := e.(*ast.CallExpr)
-	if !ok {
-		return false
-	}
-	s, ok := c.Fun.(*ast.SelectorExpr)
-	return ok && s.Sel.Name == name
-}
-
-func identName(e ast.Expr) string {
-	if id, ok := e.(*ast.Ident); ok {
-		return id.Name
-	}
-	return ""
-}
-
-func isOne(e ast.Expr) bool {
-	b, ok := e.(*ast.BasicLit)
-	return ok && b.Kind == token.INT && b.Value == "1"
-}
-
-func returnsError(b *ast.BlockStmt) bool {
-	for _, st := range b.List {
-		if r, ok := st.(*ast.ReturnStmt); ok && len(r.Results) == 2 && identName(r.Results[1]) != "nil" {
-			return true
-		}
-	}
-	return false
-}
-
-func methodOf(files []File, recvType, name string) *ast.FuncDecl {
-	for _, fl := range files {
-		for _, dd := range fl.F.Decls {
-			fd, ok := dd.(*ast.FuncDecl)
-			if !ok || fd.Body == nil || fd.Recv == nil || fd.Name.Name != name || len(fd.Recv.List) == 0 {
-				continue
-			}
-			if calleeName(fd.Recv.List[0].Type) == recvType {
-				return fd
-			}
-		}
-	}
-	return nil
 }
 
 func main() {
@@ -124,140 +59,167 @@ func main() {
 		})
 	}
 
-	// 2. increment decorator
+	// 2. increment decorator: a guard that rejects compares tx nonce with the account sequence;
+	//    SetSequence(sequence+1) on that account, then SetAccount of it
 	incCheck, incReads, incPlusOne := "CmpUnknown", false, false
 	if fd := methodOf(evmante, "AnteDecEthIncrementSenderSequence", "AnteHandle"); fd != nil {
-		seqVar := ""
-		setSeq, setAcc := token.NoPos, token.NoPos
-		ast.Inspect(fd.Body, func(n ast.Node) bool {
-			switch x := n.(type) {
-			case *ast.IfStmt:
-				if be, ok := x.Cond.(*ast.BinaryExpr); ok && returnsError(x.Body) {
-					var other ast.Expr
-					op := be.Op
-					if isMethodCall(be.X, "GetNonce") {
-						other = be.Y
-					} else if isMethodCall(be.Y, "GetNonce") {
-						other = be.X
-						switch op { // normalise to `txNonce OP seq`
-						case token.LSS:
-							op = token.GTR
-						case token.GTR:
-							op = token.LSS
-						case token.LEQ:
-							op = token.GEQ
-						case token.GEQ:
-							op = token.LEQ
-						}
-					}
-					if other != nil && identName(other) != "" {
-						seqVar = identName(other)
-						switch op {
-						case token.NEQ:
-							incCheck = "CmpNeqRejects"
-						case token.LSS:
-							incCheck = "CmpLtRejects"
-						case token.GTR:
-							incCheck = "CmpGtRejects"
-						}
-					}
+		sc := newScope(fd)
+		seqExpr := ""
+		for _, g := range guardsOf(fd.Body) {
+			if !returnsError(g.body) {
+				continue
+			}
+			c := sc.guardCmp(g)
+			if !c.ok {
+				continue
+			}
+			nonceL, nonceR := strings.HasSuffix(c.lhs, ".GetNonce()"), strings.HasSuffix(c.rhs, ".GetNonce()")
+			seqL, seqR := strings.HasSuffix(c.lhs, ".GetSequence()"), strings.HasSuffix(c.rhs, ".GetSequence()")
+			switch {
+			case nonceL && seqR: // nonce OP seq
+				seqExpr = c.rhs
+				switch c.op {
+				case token.NEQ:
+					incCheck = "CmpNeqRejects"
+				case token.LSS:
+					incCheck = "CmpLtRejects"
+				}
+			case seqL && nonceR: // seq OP nonce
+				seqExpr = c.lhs
+				switch c.op {
+				case token.NEQ:
+					incCheck = "CmpNeqRejects"
+				case token.LSS: // seq < nonce  ==  nonce > seq
+					incCheck = "CmpGtRejects"
 				}
 			}
-			return true
-		})
-		ast.Inspect(fd.Body, func(n ast.Node) bool {
-			switch x := n.(type) {
-			case *ast.AssignStmt:
-				if len(x.Lhs) == 1 && len(x.Rhs) == 1 && identName(x.Lhs[0]) == seqVar && seqVar != "" && isMethodCall(x.Rhs[0], "GetSequence") {
-					incReads = true
-				}
-			case *ast.CallExpr:
-				if isMethodCall(x, "SetSequence") && len(x.Args) == 1 {
-					if be, ok := x.Args[0].(*ast.BinaryExpr); ok && be.Op == token.ADD && identName(be.X) == seqVar && seqVar != "" && isOne(be.Y) {
-						setSeq = x.Pos()
-					}
-				}
-				if isMethodCall(x, "SetAccount") && setSeq != token.NoPos && x.Pos() > setSeq {
-					setAcc = x.Pos()
-				}
-			}
-			return true
-		})
-		incPlusOne = setSeq != token.NoPos && setAcc != token.NoPos
-	}
-
-	// 3. signature decorator: which signer constructor, bound to the keeper's chain id, errors reject
-	sigCtor, sigChain, sigRejects, sigSetsFrom := "", false, false, false
-	if fd := methodOf(evmante, "EthSigVerificationDecorator", "AnteHandle"); fd != nil {
-		usesKeeperChainID, usesTxChainID := false, false
-		ast.Inspect(fd.Body, func(n ast.Node) bool {
-			switch x := n.(type) {
-			case *ast.CallExpr:
-				nm := calleeName(x)
-				switch nm {
-				case "MakeSigner", "NewLondonSigner", "NewEIP155Signer", "NewEIP2930Signer", "LatestSignerForChainID", "LatestSigner", "HomesteadSigner", "FrontierSigner":
-					sigCtor = nm
-				case "EthChainID":
-					usesKeeperChainID = true
-				case "ChainId", "GetChainID":
-					usesTxChainID = true
-				}
-			case *ast.CompositeLit:
-				if nm := calleeName(x); nm == "HomesteadSigner" || nm == "FrontierSigner" {
-					sigCtor = nm
-				}
-			case *ast.IfStmt:
-				if be, ok := x.Cond.(*ast.BinaryExpr); ok && be.Op == token.NEQ && identName(be.X) == "err" && identName(be.Y) == "nil" && returnsError(x.Body) {
-					sigRejects = true
-				}
-			case *ast.AssignStmt:
-				if len(x.Lhs) == 1 && len(x.Rhs) == 1 {
-					if s, ok := x.Lhs[0].(*ast.SelectorExpr); ok && s.Sel.Name == "From" && isMethodCall(x.Rhs[0], "Hex") {
-						sigSetsFrom = true
-					}
-				}
-			}
-			return true
-		})
-		sigChain = (sigCtor == "MakeSigner" || sigCtor == "NewLondonSigner" || sigCtor == "LatestSignerForChainID") && usesKeeperChainID && !usesTxChainID
-	}
-
-	// 4. msg server: signer of the chain config; nonce bracket around Create/Call
-	msgSigner := false
-	if fd := kf["EthereumTx"]; fd != nil && fd.Body != nil {
-		ast.Inspect(fd.Body, func(n ast.Node) bool {
-			if c, ok := n.(*ast.CallExpr); ok && isMethodCall(c, "AsMessage") && len(c.Args) >= 1 {
-				if sc, ok := c.Args[0].(*ast.CallExpr); ok {
-					nm := calleeName(sc)
-					arg := ""
-					if len(sc.Args) > 0 {
-						arg = Nospace(sc.Args[0])
-					}
-					msgSigner = (nm == "NewLondonSigner" || nm == "MakeSigner" || nm == "LatestSignerForChainID") &&
-						strings.Contains(arg, "ChainConfig") && !strings.Contains(arg, "tx.") && !strings.Contains(arg, "ChainId()")
-				}
-			}
-			return true
-		})
-	}
-	before, after := false, false
-	if fd := kf["ApplyEvmMsg"]; fd != nil && fd.Body != nil {
-		var setN, setN1, firstExec, lastExec token.Pos
+		}
+		// the sequence compared is the one of the account looked up by the message's sender
+		incReads = seqExpr != "" && strings.Contains(seqExpr, ".GetAccount(") && strings.Contains(seqExpr, ".GetFrom()")
+		accExpr := strings.TrimSuffix(seqExpr, ".GetSequence()")
+		var setSeq token.Pos
 		ast.Inspect(fd.Body, func(n ast.Node) bool {
 			c, ok := n.(*ast.CallExpr)
 			if !ok {
 				return true
 			}
-			if isMethodCall(c, "SetNonce") && len(c.Args) == 2 && isMethodCall(c.Args[0], "From") {
-				if isMethodCall(c.Args[1], "Nonce") && setN == token.NoPos {
-					setN = c.Pos()
+			switch calleeName(c) {
+			case "SetSequence":
+				if _, recv, ok := sc.methodCall(c, "SetSequence"); ok && len(c.Args) == 1 && seqExpr != "" &&
+					sc.canon(recv) == accExpr && sc.canon(c.Args[0]) == plusOne(seqExpr) {
+					setSeq = c.Pos()
 				}
-				if be, ok := c.Args[1].(*ast.BinaryExpr); ok && be.Op == token.ADD && isMethodCall(be.X, "Nonce") && isOne(be.Y) {
-					setN1 = c.Pos()
+			case "SetAccount":
+				if setSeq != token.NoPos && c.Pos() > setSeq && len(c.Args) == 2 && sc.canon(c.Args[1]) == accExpr {
+					incPlusOne = true
 				}
 			}
-			if isMethodCall(c, "Create") || isMethodCall(c, "Call") {
-				if s, ok := c.Fun.(*ast.SelectorExpr); ok && identName(s.X) == "evmObj" {
+			return true
+		})
+	}
+
+	// 3. signature decorator: the signer that recovers the sender is built from the keeper's chain id;
+	//    a recovery error rejects; the recovered sender is stored in From
+	sigCtor, sigChain, sigRejects, sigSetsFrom := "", false, false, false
+	if fd := methodOf(evmante, "EthSigVerificationDecorator", "AnteHandle"); fd != nil {
+		for _, s := range callsNamed(fd, af, "Sender") {
+			_, recv, ok := s.sc.methodCall(s.call, "Sender")
+			if !ok {
+				continue
+			}
+			signer := s.sc.canon(recv)
+			for _, nm := range []string{"MakeSigner", "NewLondonSigner", "LatestSignerForChainID", "NewEIP155Signer", "NewEIP2930Signer", "HomesteadSigner", "FrontierSigner"} {
+				if strings.Contains(signer, nm) {
+					sigCtor = nm
+				}
+			}
+			sigChain = (sigCtor == "MakeSigner" || sigCtor == "NewLondonSigner" || sigCtor == "LatestSignerForChainID") &&
+				strings.Contains(signer, ".EthChainID(") && !strings.Contains(signer, ".ChainId()") && !strings.Contains(signer, ".GetChainID()")
+			// which locals hold the two results of this call
+			senderVar, errVar := "", ""
+			ast.Inspect(s.sc.fd.Body, func(n ast.Node) bool {
+				if as, ok := n.(*ast.AssignStmt); ok && len(as.Rhs) == 1 && len(as.Lhs) == 2 && as.Rhs[0] == ast.Expr(s.call) {
+					if a, ok := as.Lhs[0].(*ast.Ident); ok {
+						senderVar = a.Name
+					}
+					if b, ok := as.Lhs[1].(*ast.Ident); ok {
+						errVar = b.Name
+					}
+				}
+				return true
+			})
+			for _, g := range guardsOf(s.sc.fd.Body) {
+				if g.cond == nil || g.pos < s.call.Pos() || !returnsError(g.body) {
+					continue
+				}
+				if be, ok := s.sc.deref(g.cond).(*ast.BinaryExpr); ok && be.Op == token.NEQ {
+					x, xo := be.X.(*ast.Ident)
+					y, yo := be.Y.(*ast.Ident)
+					if xo && yo && ((x.Name == errVar && y.Name == "nil") || (y.Name == errVar && x.Name == "nil")) && errVar != "" {
+						sigRejects = true
+					}
+				}
+			}
+			ast.Inspect(s.sc.fd.Body, func(n ast.Node) bool {
+				if as, ok := n.(*ast.AssignStmt); ok && len(as.Lhs) == 1 && len(as.Rhs) == 1 {
+					if sel, ok := as.Lhs[0].(*ast.SelectorExpr); ok && sel.Sel.Name == "From" {
+						if _, recv, ok := s.sc.methodCall(as.Rhs[0], "Hex"); ok {
+							if id, ok := recv.(*ast.Ident); ok && id.Name == senderVar && senderVar != "" {
+								sigSetsFrom = true
+							}
+						}
+					}
+				}
+				return true
+			})
+		}
+	}
+
+	// 4. msg server: signer of the chain config; nonce bracket around Create/Call
+	msgSigner := false
+	if fd := kf["EthereumTx"]; fd != nil && fd.Body != nil {
+		for _, s := range callsNamed(fd, kf, "AsMessage") {
+			if len(s.call.Args) >= 1 {
+				sg := s.sc.canon(s.call.Args[0])
+				msgSigner = (strings.Contains(sg, "NewLondonSigner(") || strings.Contains(sg, "MakeSigner(") || strings.Contains(sg, "LatestSignerForChainID(")) &&
+					strings.Contains(sg, "ChainConfig") && !strings.Contains(sg, ".ChainId()") && !strings.Contains(sg, ".GetChainID()")
+			}
+		}
+	}
+	before, after := false, false
+	if fd := kf["ApplyEvmMsg"]; fd != nil && fd.Body != nil {
+		sc := newScope(fd)
+		evmParam := ""
+		for n, ty := range sc.ptype {
+			if ty == "*vm.EVM" {
+				evmParam = sc.params[n]
+			}
+		}
+		var setN, setN1, firstExec, lastExec token.Pos
+		unconditional := map[token.Pos]bool{}
+		for _, st := range fd.Body.List { // statements at the top level of the function run on every path
+			if es, ok := st.(*ast.ExprStmt); ok {
+				unconditional[es.X.Pos()] = true
+			}
+		}
+		ast.Inspect(fd.Body, func(n ast.Node) bool {
+			c, ok := n.(*ast.CallExpr)
+			if !ok {
+				return true
+			}
+			switch calleeName(c) {
+			case "SetNonce":
+				if len(c.Args) == 2 && strings.HasSuffix(sc.canon(c.Args[0]), ".From()") {
+					a1 := sc.canon(c.Args[1])
+					if strings.HasSuffix(a1, ".Nonce()") && setN == token.NoPos {
+						setN = c.Pos()
+					}
+					if base, ok := minusOne(a1); ok && strings.HasSuffix(base, ".Nonce()") && unconditional[c.Pos()] {
+						setN1 = c.Pos()
+					}
+				}
+			case "Create", "Call":
+				if _, recv, ok := sc.methodCall(c, calleeName(c)); ok && evmParam != "" && sc.canon(recv) == evmParam {
 					if firstExec == token.NoPos {
 						firstExec = c.Pos()
 					}
@@ -266,18 +228,16 @@ func main() {
 			}
 			return true
 		})
-		before = setN != token.NoPos && firstExec != token.NoPos && setN < firstExec
+		before = setN != token.NoPos && firstExec != token.NoPos && setN < firstExec && unconditional[setN]
 		after = setN1 != token.NoPos && lastExec != token.NoPos && setN1 > lastExec
 	}
 	createAddr := false
 	if fd := kf["EmitEthereumTxEvents"]; fd != nil && fd.Body != nil {
-		ast.Inspect(fd.Body, func(n ast.Node) bool {
-			if c, ok := n.(*ast.CallExpr); ok && calleeName(c) == "CreateAddress" && len(c.Args) == 2 &&
-				isMethodCall(c.Args[0], "From") && isMethodCall(c.Args[1], "Nonce") {
+		for _, s := range callsNamed(fd, kf, "CreateAddress") {
+			if len(s.call.Args) == 2 && strings.HasSuffix(s.sc.canon(s.call.Args[0]), ".From()") && strings.HasSuffix(s.sc.canon(s.call.Args[1]), ".Nonce()") {
 				createAddr = true
 			}
-			return true
-		})
+		}
 	}
 
 	fmt.Println("Require Import Nib.C07.Model Nib.C07.Facts.")
